@@ -88,6 +88,12 @@ Theorem C12_executed_model_is_specified_model :
   /\ (forall lookup bs, dec_reflect_fast lookup bs = dec_reflect lookup bs).
 Proof. exact (conj encode_fast_eq (conj decode_fast_eq (conj enc_reflect_fast_eq dec_reflect_fast_eq))). Qed.
 
+(* the message decoder returns None only where bincode itself fails: every value bincode
+   produces for the Message schema is one of the twelve messages *)
+Theorem C12_message_decoder_fails_only_where_bincode_fails :
+  forall bs, decode bs = None -> dec message_ty bs = None.
+Proof. exact decode_none_only_if_bincode_fails. Qed.
+
 Print Assumptions C12_source_message_layout.
 Print Assumptions C12_message_roundtrip.
 Print Assumptions C12_message_bytes_determine_message.
@@ -96,3 +102,4 @@ Print Assumptions C12_component_bytes_determine_value.
 Print Assumptions C12_component_decoder_accepts_only_encodings.
 Print Assumptions C12_wf_is_inhabited.
 Print Assumptions C12_executed_model_is_specified_model.
+Print Assumptions C12_message_decoder_fails_only_where_bincode_fails.
